@@ -322,3 +322,33 @@ def hocur_exact(ctx, sel, mix):
     ctx.check('hocur dims', psi.row_dims == n + [m])
     ctx.eq('hocur (pivot selection %d) reproduces the tensor of basis-function products wherever the intersections are invertible' % sel,
            psi.full().reshape(T.shape), T)
+
+
+# -------------------------------------------------------------- data stored with an integer dtype
+@scenario('C15', 'int_data', lambda tier: [{'which': 'basis_decomposition', 'add_one': True}, {'which': 'coordinate_major', 'add_one': True},
+                                            {'which': 'function_major', 'add_one': True}, {'which': 'function_major', 'add_one': False}])
+def int_data(ctx, which, add_one):
+    """a data matrix of integer dtype (counts, lattice states, pixel values): the transformed tensor still holds the products of the basis functions, which are
+    not integer-valued (concrete integer data, exact terms sin(2), exp(-1/2), ... for the function values); reference = the same construction on the float
+    copy of the data, whose value is the basis_decomposition / coordinate_function_major claim"""
+    tdt = ctx.R.transform
+    if ctx.mode == 'tv':
+        raise SkipTV()
+    xi = np.array([[1, -2, 0], [3, 1, -1]], dtype=int)
+    d, m = xi.shape
+    xf = ctx.lift(xi.astype(float))
+    if which == 'basis_decomposition':
+        phi = [_funcs(ctx, tdt, d, w) for w in [['const', 'id', 'sin'], ['cos', 'gauss']]]
+        fn = lambda x, **kw: tdt.basis_decomposition(x, phi, **kw)
+    else:
+        fl = _scalar_funcs(ctx, tdt, ['sin', 'gauss', 'mono2'])
+        if which == 'coordinate_major':
+            fn = lambda x, **kw: tdt.coordinate_major(x, fl, **kw)
+        else:
+            fn = lambda x, **kw: tdt.function_major(x, fl, add_one=add_one, **kw)
+    psi = fn(xi)
+    ref = fn(xf)
+    meta_ok(ctx, which + ' (integer data)', psi)
+    ctx.eq('%s on integer-typed data == tensor of basis-function products' % which, psi.full(), ref.full(), tol=1e-12)
+    for k in range(psi.order - 1):
+        ctx.eq('%s on integer-typed data: single_core=%d == core %d of the full train' % (which, k, k), fn(xi, single_core=k), ref.cores[k], tol=1e-12)
